@@ -391,8 +391,124 @@ func c11Groups(tier string) []c11Group {
 	return out
 }
 
+// ---- Low-Latency clause: one preload-hint GET per playlist, _HLS_skip=YES on polls iff CAN-SKIP-UNTIL was advertised ----
+
+type c11LL struct {
+	Rounds  int    `json:"rounds"`   // playlists that carry a preload hint
+	CanSkip bool   `json:"can_skip"` // the first playlist advertises CAN-SKIP-UNTIL
+	End     string `json:"end"`      // "no-hint": the playlist after the last round has no hint; "404": it is missing
+	Query   bool   `json:"query"`    // the playlist URL already carries a query string
+}
+
+func c11LLRun(c *vh.Ctx, cs c11LL) (sig, msg, outcome string) {
+	st, err := c10Build(c10Case{Container: "fmp4", Tracks: "v", Frags: 1, PDT: true, VOD: true, NSeg: cs.Rounds + 1})
+	if err != nil {
+		return "engine", err.Error(), ""
+	}
+	polls := 0
+	srv := &stubServer{}
+	srv.handler = func(n int, path, rawQuery string, req *http.Request) srvResp {
+		name := path[strings.LastIndexByte(path, '/')+1:]
+		switch {
+		case name == "ll.m3u8":
+			k := polls
+			polls++
+			if k > cs.Rounds || (k == cs.Rounds && cs.End == "404") {
+				return srvResp{Status: 404}
+			}
+			var b strings.Builder
+			sc := "CAN-BLOCK-RELOAD=YES,PART-HOLD-BACK=3.00000"
+			if cs.CanSkip {
+				sc += ",CAN-SKIP-UNTIL=6.00000"
+			}
+			fmt.Fprintf(&b, "#EXTM3U\n#EXT-X-VERSION:9\n#EXT-X-TARGETDURATION:1\n#EXT-X-SERVER-CONTROL:%s\n#EXT-X-PART-INF:PART-TARGET=1.00000\n#EXT-X-MEDIA-SEQUENCE:%d\n#EXT-X-MAP:URI=\"r0_init\"\n", sc, k)
+			fmt.Fprintf(&b, "#EXT-X-PROGRAM-DATE-TIME:2022-03-04T05:06:07.250Z\n#EXTINF:1.00000,\nseg%d.mp4\n", k)
+			if k < cs.Rounds {
+				fmt.Fprintf(&b, "#EXT-X-PRELOAD-HINT:TYPE=PART,URI=\"part%d.mp4\"\n", k)
+			}
+			return srvResp{Status: 200, Body: []byte(b.String())}
+		case name == "r0_init":
+			return srvResp{Status: 200, Body: st.rends[0].init}
+		case strings.HasPrefix(name, "part"):
+			var k int
+			fmt.Sscanf(name, "part%d.mp4", &k)
+			if k < len(st.rends[0].segs) {
+				return srvResp{Status: 200, Body: st.rends[0].segs[k].Body}
+			}
+		}
+		return srvResp{Status: 404}
+	}
+	base := "http://ll.example/live/"
+	uri := base + "ll.m3u8"
+	if cs.Query {
+		uri += "?session=42"
+	}
+	obs := runClientPlain(c.T, uri, srv, cliOpts{})
+	// model
+	var want []string
+	want = append(want, uri, base+"r0_init")
+	poll := uri
+	if cs.CanSkip {
+		if cs.Query {
+			poll = base + "ll.m3u8?_HLS_skip=YES&session=42"
+		} else {
+			poll = base + "ll.m3u8?_HLS_skip=YES"
+		}
+	}
+	for k := 0; k < cs.Rounds; k++ {
+		want = append(want, fmt.Sprintf("%spart%d.mp4", base, k), poll)
+	}
+	wantEnd := "hint-disappeared"
+	if cs.End == "404" {
+		wantEnd = "http"
+	}
+	var got []string
+	for _, r := range obs.Reqs {
+		got = append(got, r.URL)
+	}
+	end := c11Class(obs.WaitErr)
+	if obs.WaitErr != nil && strings.Contains(obs.WaitErr.Error(), "preload hint disappeared") {
+		end = "hint-disappeared"
+	}
+	outcome = fmt.Sprintf("ll rounds=%d skip=%v end=%s reqs=%d", cs.Rounds, cs.CanSkip, end, len(got))
+	where := fmt.Sprintf("\ncase: %+v\n got  %s\n want %s", cs, strings.Join(got, "\n      "), strings.Join(want, "\n      "))
+	if len(obs.Panics) > 0 {
+		return "client-panic", obs.Panics[0] + where, outcome
+	}
+	if obs.Wedged || obs.Leaked {
+		return "client-wedged", fmt.Sprintf("wedged=%v leaked=%v", obs.Wedged, obs.Leaked) + where, outcome
+	}
+	if len(got) != len(want) {
+		return "ll-request-count", fmt.Sprintf("the client issued %d requests, the model expects %d", len(got), len(want)) + where, outcome
+	}
+	for i := range got {
+		if got[i] != want[i] {
+			return "ll-wrong-request", fmt.Sprintf("request %d is %q, the model expects %q (one preload-hint GET per playlist, _HLS_skip=YES exactly when CAN-SKIP-UNTIL was advertised)", i, got[i], want[i]) + where, outcome
+		}
+	}
+	if end != wantEnd {
+		return "ll-wrong-end", fmt.Sprintf("the client ended with %q (%v), want %q", end, obs.WaitErr, wantEnd) + where, outcome
+	}
+	return "", "", outcome
+}
+
+func c11LLCases() []c11LL {
+	var out []c11LL
+	for rounds := 1; rounds <= 4; rounds++ {
+		for _, skip := range []bool{false, true} {
+			for _, end := range []string{"no-hint", "404"} {
+				for _, q := range []bool{false, true} {
+					out = append(out, c11LL{Rounds: rounds, CanSkip: skip, End: end, Query: q})
+				}
+			}
+		}
+	}
+	return out
+}
+
 func c11List(tier string) []vh.Scenario {
 	var out []vh.Scenario
+	out = append(out, vh.Scenario{Name: "low-latency preload hints", Weight: 200})
 	for _, g := range c11Groups(tier) {
 		w := 1000
 		if g.Multi {
@@ -404,6 +520,33 @@ func c11List(tier string) []vh.Scenario {
 }
 
 func c11Run(c *vh.Ctx) {
+	if c.Replay != nil && strings.Contains(string(c.Replay), `"rounds"`) {
+		var cs c11LL
+		json.Unmarshal(c.Replay, &cs)
+		c.Exec()
+		if sig, msg, _ := c11LLRun(c, cs); sig != "" {
+			c.Violation("C11/"+sig, msg, cs)
+		}
+		return
+	}
+	if c.Replay == nil && c.Scenario == "low-latency preload hints" {
+		for _, cs := range c11LLCases() {
+			sig, msg, outcome := c11LLRun(c, cs)
+			if sig == "engine" {
+				c.EngineError("%s", msg)
+				return
+			}
+			c.Exec()
+			c.AddStates(1)
+			c.AddTransitions(int64(cs.Rounds))
+			c.Outcome(outcome)
+			c.Sample(map[string]any{"case": cs, "outcome": outcome})
+			if sig != "" {
+				c.Violation("C11/"+sig, msg, cs)
+			}
+		}
+		return
+	}
 	if c.Replay != nil {
 		var cs c11Case
 		if err := json.Unmarshal(c.Replay, &cs); err != nil {
